@@ -224,8 +224,13 @@ def render(lines, rng, style, eol=b'\n'):
 
 
 def make_program(rng, tier, extended):
-    g = Gen10(rng, maxdepth=rng.choice([2, 3, 3, 4]), size=rng.choice([2, 4, 6, 9]))
-    p = g.program()
+    md, sz = rng.choice([2, 3, 3, 4]), rng.choice([2, 4, 6, 9])
+    try:
+        p = Gen10(rng, maxdepth=md, size=sz).program()
+    except (TypeError, AttributeError):
+        # pgen.py (worker parser) changed its internals: use its public entry point; programs on which luafmt
+        # raises (parenthesised call prefixes) are then counted as outside
+        p = pgen.generate_program(rng, maxdepth=md, size=sz)
     lines = skeleton(p, rng, extended)
     return p, lines
 
